@@ -48,6 +48,7 @@ def make_scenarios(ctx, count):
         reqs = []      # (kind, type, offset, seq) aligned with inputs
         quick = set()  # indices of requests sent in the quick-discovery service
         repeats = set()
+        changes = {}   # request index -> the platform's properties from then on
 
         def feed(fr, info):
             s.frame(0, fr)
@@ -73,8 +74,22 @@ def make_scenarios(ctx, count):
                 off += ln
         # (b) boundary-dense single calls
         prev_call = None
+        glob0 = glob
         for _ in range(rng.randint(20, 60)):
-            typ = rng.choice([0x0E, 0x0E, 0x11, 0x13, rng.randint(0, 255)])
+            if rng.random() < 0.05:
+                # the platform's hardware identifier or friendly name changes while the session goes on (they are read for every
+                # request; only the icon is kept per session): shorter, longer, empty
+                glob = dict(glob)
+                if rng.random() < 0.6:
+                    old = G.hwid_effective(glob)
+                    nl = rng.choice([0, 2, max(0, len(old) - 2), max(0, len(old) // 2 // 2 * 2), min(64, len(old) + 4), 62, 64])
+                    glob["hwid"] = W.fill_stream(nl, rng.randint(1, 10 ** 6)).replace(b"\0", b"\1")
+                else:
+                    glob["fname"] = W.fill_stream(rng.choice([0, 2, 10, P - 1, P + 1]), rng.randint(1, 10 ** 6))
+                kw2 = G.global_kw(glob)
+                s.add("GSET hwid=%s fname=%s" % (kw2["hwid"].hex() or "-", kw2["fname"].hex() or "-"))
+                changes[len(reqs)] = glob
+            typ = rng.choice([0x0E, 0x0E, 0x11, 0x13, 0x13, rng.randint(0, 255)])
             d = data_for(glob, typ)
             S = len(d)
             off = rng.choice([0, 1, S - 1, S, S + 1, 0x7FFF, 0x8000, 0xFFFF, P, 2 * P, S - P, S - P - 1, S - P + 1,
@@ -117,7 +132,7 @@ def make_scenarios(ctx, count):
                     feed(G.f_emit(rng, net, m, seq=q2, n=1, bridged=bridged)[0], ("other",))
                 feed(W.qlt(net.own, net.mappers[m], q2, typ, off, eth_src=net.bridges[m] if bridged else None), ("call", typ, off, q2))
                 repeats.add(how)
-        globs = [glob]
+        globs = [glob0]
         if rng.random() < 0.6:
             # next session: Reset, (usually) a different icon on the platform, Discover, reassemble again
             feed(G.f_reset(rng, net, m=m, tos=0), ("other",))
@@ -143,6 +158,8 @@ def make_scenarios(ctx, count):
                 off += ln
         else:
             switch_at = None
+            if glob is not glob0:
+                globs.append(glob)        # what the platform holds now (name / hardware id changed during the session)
         mtu_at, mtu2 = None, None
         if rng.random() < 0.35:
             # the link's MTU changes while the interface lives on (jumbo frames switched off or on, a tunnel coming up): what
@@ -164,7 +181,7 @@ def make_scenarios(ctx, count):
                         if len(d) - off <= ln or off + ln > 0xFFFF:
                             break
                         off += ln
-        s.meta = dict(reqs=reqs, glob=glob, mtu=mtu, own=cfg["mac"], globs=globs, switch_at=switch_at, mtu_at=mtu_at, mtu2=mtu2, quick=quick, repeats=sorted(repeats))
+        s.meta = dict(reqs=reqs, glob=glob0, mtu=mtu, own=cfg["mac"], globs=globs, switch_at=switch_at, mtu_at=mtu_at, mtu2=mtu2, quick=quick, repeats=sorted(repeats), changes=changes)
         scns.append(s)
     return scns
 
@@ -264,6 +281,9 @@ def monitor(scn, sobj, rep, sf, ck):
         if idx >= len(reqs) or inp.out is None:
             break
         r = reqs[idx]
+        if idx in sobj.meta.get("changes", {}):
+            glob = sobj.meta["changes"][idx]
+            rep.count("name_or_hardware_id_changed_mid_session")
         if switch_at is not None and idx >= switch_at:
             glob = globs[1]
         if sobj.meta.get("mtu_at") is not None and idx >= sobj.meta["mtu_at"]:
@@ -372,6 +392,7 @@ def run(ctx):
     rep.need("reassemblies", c.get("reassemblies", 0), 1200)
     rep.need("reassemblies_3plus_chunks", c.get("reassemblies_3plus_chunks", 0), 50)
     rep.need("types:unknown", c.get("types:unknown", 0), 100)
+    rep.need("name_or_hardware_id_changed_mid_session", c.get("name_or_hardware_id_changed_mid_session", 0), 200)
     rep.need("icon_reassembled_after_a_quick_discovery_only_session", c.get("icon_reassembled_after_a_quick_discovery_only_session", 0), 100)
     for how in ("same", "fresh", "after-query", "after-emit"):
         rep.need("request_repeated:" + how, c.get("request_repeated:" + how, 0), 50)
